@@ -29,7 +29,9 @@ NCPU = int(os.environ.get("VERIF_JOBS", "16"))
 # per-property configuration: batches = (label, flavour, binary, mode, focus, runs_quick, runs_thorough)
 CONFIG = {
     "C14": dict(level="exploration", batches=[("hist/asan", "asan", "yaepsim", "hist", 0, 6000, 120000),
-                                               ("hist/plain", "plain", "yaepsim", "hist", 0, 16000, 500000)]),
+                                               ("hist/plain", "plain", "yaepsim", "hist", 0, 16000, 500000),
+                                               # perturb plans are histories too (one task, config flips, long inputs): memory safety
+                                               ("perturb/asan", "asan", "yaepsim", "perturb", 0, 1500, 40000)]),
     "C15": dict(level="exploration", batches=[("hist/asan", "asan", "yaepsim", "hist", 1, 6000, 120000),
                                                ("hist/plain", "plain", "yaepsim", "hist", 1, 16000, 500000),
                                                ("oom/plain", "plain", "yaepsim", "oom", 1, 6000, 120000)]),
@@ -366,7 +368,8 @@ def main():
     audit_total = audit_bad = 0
     audit_bad_seeds = []
     for b in batches_seeded:
-        seeds = sorted(b.hashes)[:: max(1, len(b.hashes) // (12 if tier == "quick" else 200))][: (12 if tier == "quick" else 200)]
+        n_audit = 12 if tier == "quick" else (40 if b.mode == "ansic" else 2500)
+        seeds = sorted(b.hashes)[:: max(1, len(b.hashes) // n_audit)][:n_audit]
         with cf.ThreadPoolExecutor(max_workers=NCPU) as pool:
             futs = {s: pool.submit(run_chunk, b.exe, b.mode, b.focus, s, s + 1, False) for s in seeds}
             for s, f in futs.items():
@@ -376,8 +379,29 @@ def main():
                     audit_bad += 1
                     audit_bad_seeds.append((b.label, s))
 
+    # A run whose event log in a fresh process differs from its event log inside the worker: either the harness is not
+    # deterministic (machinery fault) or the library's behaviour depends on earlier runs of the same process - which is
+    # exactly a violation of C14.  Decide by repeating both executions.
+    cross_run = []
+    machinery_audit = []
+    for (label, s) in audit_bad_seeds:
+        b = [x for x in batches_seeded if x.label == label][0]
+        lo = b.seed0 + ((s - b.seed0) // CHUNK) * CHUNK
+        fresh2 = run_chunk(b.exe, b.mode, b.focus, s, s + 1, False)["hashes"].get(s)
+        fresh3 = run_chunk(b.exe, b.mode, b.focus, s, s + 1, False)["hashes"].get(s)
+        chain2 = run_chunk(b.exe, b.mode, b.focus, lo, s + 1, False)["hashes"].get(s)
+        if fresh2 == fresh3 and chain2 == b.hashes[s] and fresh2 != chain2:
+            cross_run.append(("C14/depends_on_earlier_runs/%s" % b.mode, "chain:%s:%s:%d:%d-%d" % (b.flavour, b.mode, b.focus, lo, s),
+                              "run %d behaves differently after runs %d..%d of the same process than in a fresh process" % (s, lo, s - 1)))
+        else:
+            machinery_audit.append((label, s))
+    audit_bad_seeds = machinery_audit
+    audit_bad = len(machinery_audit)
+
     # ---- triage of candidates for this property
     violations = []      # (cls, replay_path, detail)
+    if prop == "C14":
+        violations += cross_run
     known_hits = {}      # kf id -> count
     machinery = []
     other_props = {}
@@ -501,7 +525,8 @@ def main():
             "distinct_history_shapes": len(shapes),
             "twin_oracle": {"queries": stats.get("twin_queries", 0), "memo_hits": stats.get("twin_hits", 0),
                             "denoted_set_comparisons": stats.get("denot_compared", 0), "undecided_large": stats.get("undecided_large", 0)},
-            "determinism_audit": {"replayed_in_fresh_process": audit_total, "hash_mismatches": audit_bad},
+            "determinism_audit": {"replayed_in_fresh_process": audit_total, "hash_mismatches": audit_bad,
+                                  "deterministic_dependence_on_earlier_runs": len(cross_run)},
             "candidates_triaged": n_triaged,
             "non_gating_probe_results": probe_counts,
             "violations_of_other_properties_seen": other_props,
